@@ -13,7 +13,7 @@ From Dig Require Import Base Sig State Graph GraphProofs Register Resolve Run Sp
                      decorator (a decorator of a key without provider makes the
                      key available half-way through an Invoke).
         wf_strict: the key-kind conventions every parsed signature satisfies,
-        keys of one group result / of one decorator pairwise distinct. ---- *)
+        keys of one group result pairwise distinct. ---- *)
 Theorem C01_holds_up_to_known_findings : forall cfg bt du h,
   wf_scopes h = true -> wf_strict h = true -> P_Once.wf_fns h = true -> cfg_dry cfg = false ->
   forall i c, In (i, c) (chk_C01 cfg bt h (map obs_of (run cfg (beh_of bt) du h))) ->
